@@ -666,7 +666,8 @@ def fingerprint(f):
         if hasattr(x, "has_bounds") and x.has_bounds():
             b = x.bounds
             if b.nc_get_variable(None) is not None:
-                names.append([chash[k], "bvar", b.nc_get_variable()])
+                # (a bounds variable is written to the group of its parent variable: its own group is not a set name)
+                names.append([chash[k], "bvar", b.nc_get_variable().split("/")[-1]])
             if b.nc_get_dimension(None) is not None:
                 names.append([chash[k], "bdim", b.nc_get_dimension()])
     for k, r in cons.filter_by_type("coordinate_reference", todict=True).items():
